@@ -140,26 +140,42 @@ def judge(module, traces, tag=None, jvms=4, workers=4, heap='3g', timeout=1800, 
         """
         Judge one chunk.  A recorded observable outside the domain of the specification's operators (a column beyond the end
         of its line, a missing field ...) makes TLC stop with an evaluation error that names the trace; such a trace is a
-        mismatch with the specification: it gets a REJECT verdict and the rest of the chunk is judged again without it.
+        mismatch with the specification: it gets a REJECT verdict.  Every verdict printed before the error stands (a verdict
+        is a function of its own trace), so only the traces that have none yet are judged again.
         """
         ch = chunks[ci]
         alive = list(range(len(ch)))
+        got = {}
+        tot = dict(states=0, distinct=0, wall=0.0)
+        res = None
         for attempt in range(400):
             res = run_tlc(module, env={'TRACE_FILE': files[ci]}, workers=workers,
                           heap=heap, timeout=timeout, tag=f'{tag}_{ci}')
+            for k_ in ('states', 'distinct', 'wall'):
+                tot[k_] += res[k_]
+            va = parse_verdicts(res['out'], len(alive))
             if not tlc_failed(res):
-                res['alive'] = alive
-                return res
+                for pos, j in enumerate(alive):
+                    if va[pos] is not None:
+                        got[j] = va[pos]
+                return dict(res, got=got, **tot)
             m = re.search(r'Error: The behavior up to this point is:.*?/\\ tid = (\d+)', res['out'], re.S)
             e = re.search(r'Error: (?!The behavior|The error occurred)(.*)', res['out'])
-            if not m or 'Parsing or semantic analysis failed' in res['out'] or len(alive) <= 1:
-                res['alive'] = alive
-                return res
+            if not m or 'Parsing or semantic analysis failed' in res['out'] or not (1 <= int(m.group(1)) <= len(alive)):
+                return dict(res, got=got, failed=True)
             k = int(m.group(1)) - 1
             bad = alive[k]
             why = (e.group(1).strip() if e else 'evaluation error')[:160]
+            x = re.search(r'The exception was a (\S+)\s*\n?: ([^\n]*)', res['out'])
+            if x:
+                why = (x.group(1).split('.')[-1] + ': ' + x.group(2).strip())[:200]
             forced[(ci, bad)] = ('REJECT', 'recorded observable outside the domain of the specification: ' + why)
-            del alive[k]
+            for pos, j in enumerate(alive):
+                if va[pos] is not None and j != bad:
+                    got[j] = va[pos]
+            alive = [j for j in alive if j != bad and j not in got]
+            if not alive:
+                return dict(res, got=got, **tot)
             with open(files[ci], 'w', encoding='utf-8') as f:
                 for j in alive:
                     f.write(json.dumps(ch[j], ensure_ascii=True))
@@ -168,26 +184,23 @@ def judge(module, traces, tag=None, jvms=4, workers=4, heap='3g', timeout=1800, 
         # the records not reached are left unjudged (NA) instead of failing the whole run
         for j in alive:
             forced[(ci, j)] = ('NA', 'not judged: the batch was abandoned after 400 records outside the domain of the specification')
-        res = dict(res, out='', states=0, distinct=0, alive=[], abandoned=True)
-        return res
+        return dict(res, got=got, **tot)
 
     with ThreadPoolExecutor(max_workers=len(chunks)) as ex:
         results = list(ex.map(one, range(len(chunks))))
     verdicts = []
     stats = dict(states=0, distinct=0, wall=0.0)
     for ci, (ch, res) in enumerate(zip(chunks, results)):
-        if tlc_failed(res) and not res.get('abandoned'):
+        if res.get('failed'):
             keep = os.path.join(WORK, f'failed_{tag}_{ci}.out')
             with open(keep, 'w') as f:
                 f.write(res['out'])
             shutil.copy(files[ci], os.path.join(WORK, f'failed_{tag}_{ci}.ndjson'))
             raise MachineryError(f'TLC failed judging {module} chunk {ci}: see {keep}\n'
                                  + res['out'][-3000:])
-        alive = res.get('alive', list(range(len(ch))))
-        va = parse_verdicts(res['out'], len(alive))
         v = [None] * len(ch)
-        for pos, j in enumerate(alive):
-            v[j] = va[pos]
+        for j, x in res['got'].items():
+            v[j] = x
         for (cj, j), fv in forced.items():
             if cj == ci:
                 v[j] = fv
